@@ -76,6 +76,17 @@ def stepC33 (toks : List String) : String :=
         (st, acc.2 ++ [if st.2.length = acc.1.2.length then "0" else "1"])) (([], []), [])
       s!"acc={",".intercalate run.2} dup={fmtSet (run.1.1.contains ·)}"
     | none => "bad-op"
+  | ["maj", _, count] => match nat? count with
+    | some c => s!"count={c} maj={realMajority c}"
+    | none => "bad-op"
+  | "sig" :: rest =>
+    match field? rest "m" >>= String.toNat?, field? rest "n" >>= String.toNat?, field? rest "keys" >>= natsW?, field? rest "sigs" with
+    | some m, some n, some keys, some sg =>
+      -- <key>, <key>t (twin), <key>f (second signature) all verify under <key>; x under no key
+      let sigs := (csvW sg).map fun tok =>
+        if tok = "x" then none else (String.ofList (tok.toList.filter Char.isDigit)).toNat?
+      if (verifyMultisig m n keys sigs).isSome then "ok" else "rej"
+    | _, _, _, _ => "bad-op"
   | "wflow" :: rest => match parseFlow rest with
     | some steps =>
       let wd := (runHist ([], []) steps).1
